@@ -8,7 +8,7 @@ use crate::{IN, MAX, MAXL, Pub, Row, TOP, sink, sink_words};
 use crypto_bigint::modular::{BoxedMontyForm, BoxedMontyParams, ConstMontyForm, MontyForm, MontyParams};
 use crypto_bigint::subtle::{Choice, ConditionallySelectable, ConstantTimeEq, ConstantTimeGreater, ConstantTimeLess, CtOption};
 use crypto_bigint::{
-    BitOps, BoxedUint, CheckedAdd, CheckedMul, CheckedSub, ConstChoice, ConstCtOption, ConstantTimeSelect, Gcd, Int, Integer, Invert, Limb, NonZero, Odd, U64, U128, U256,
+    BitOps, BoxedUint, CheckedAdd, CheckedMul, CheckedSub, ConstChoice, ConstCtOption, ConstantTimeSelect, Gcd, Int, Integer, Invert, Limb, NonZero, Odd, Reciprocal, U64, U128, U256,
     Uint, WrappingAdd, WrappingMul, WrappingNeg, WrappingSub, Zero, impl_modulus,
 };
 
@@ -572,6 +572,24 @@ pub fn table(thorough: bool) -> Vec<Row> {
     row!(r; "Int::inv_odd_mod"; n=[1,2,4]; s=2; ks=no_k; pubs=no_pub; heavy=true; vt=false; prep=p_odd_b; |x| { octo(0, x.a.as_int().inv_odd_mod(&Odd::new(x.b).unwrap())); });
     row!(r; "Int:Gcd::gcd"; n=[1,2,4]; s=2; ks=no_k; pubs=no_pub; heavy=true; vt=false; prep=p_none; |x| { ou(0, &Gcd::gcd(&x.a.as_int(), &x.b.as_int())); });
 
+    // ------------------------------------------------------------------ second batch (API accounting)
+    ct!(r; "Uint::checked_and/or/xor"; s=2; |x| { octo(0, x.a.checked_and(&x.b)); octo(N + 1, x.a.checked_or(&x.b)); octo(2 * N + 2, x.a.checked_xor(&x.b)); });
+    ct!(r; "Uint::wrapping_and/or/xor"; s=2; |x| { ou(0, &x.a.wrapping_and(&x.b)); ou(N, &x.a.wrapping_or(&x.b)); ou(2 * N, &x.a.wrapping_xor(&x.b)); });
+    ct!(r; "Reciprocal::new + div_rem_limb_with_reciprocal"; s=2; |x| {
+        let rc = Reciprocal::new(NonZero::new(Limb(x.b.as_words()[0] | 1)).unwrap());
+        let (q, rm) = x.a.div_rem_limb_with_reciprocal(&rc); ou(0, &q); sink(N, rm.0); sink(N + 1, x.a.rem_limb_with_reciprocal(&rc).0);
+    });
+    ct!(r; "Uint:num_traits::One::is_one"; s=1; |x| { sink(0, num_traits::One::is_one(&x.a) as u64); });
+    int_ct!("Int::abs", s=1, p_none, |a, b, x| { ou(0, &a.abs()); });
+    int_ct!("Int::overflowing_neg", s=1, p_none, |a, b, x| { let (v, c) = a.overflowing_neg(); oi(0, &v); oc(N, c); });
+    int_ct!("Int::is_min/is_max", s=1, p_none, |a, b, x| { oc(0, a.is_min()); oc(1, a.is_max()); });
+    int_ct!("Int::div_uint/rem_uint", s=2, p_nz_b, |a, b, x| { let d = NonZero::new(x.b).unwrap(); oi(0, &a.div_uint(&d)); oi(N, &a.rem_uint(&d)); });
+    int_ct!("Int::div_floor_uint", s=2, p_nz_b, |a, b, x| { oi(0, &a.div_floor_uint(&NonZero::new(x.b).unwrap())); });
+    int_ct!("Int::split_mul_uint", s=2, p_none, |a, b, x| { let (lo, hi, sg) = a.split_mul_uint(&x.b); ou(0, &lo); ou(N, &hi); oc(2 * N, sg); });
+    int_ct!("Int::split_mul_uint_right", s=2, p_none, |a, b, x| { let (lo, hi, sg) = a.split_mul_uint_right(&x.b); ou(0, &lo); ou(N, &hi); oc(2 * N, sg); });
+    int_ct!("Int::checked_mul_uint_right", s=2, p_none, |a, b, x| { octoi(0, a.checked_mul_uint_right(&x.b)); });
+    int_ct!("Int::wrapping_neg_if/bitops", s=2, p_none, |a, b, x| { oi(0, &(a & b)); oi(N, &(a | b)); oi(2 * N, &(a ^ b)); oi(3 * N, &!a); });
+
     // ------------------------------------------------------------------ MontyForm (modulus public)
     macro_rules! monty { ($name:expr, $heavy:expr, [$($w:tt),*], |$a:ident, $b:ident, $x:ident| $body:block) => {
         row!(r; $name; n=[$($w),*]; s=(if $name.contains("inv") { 1 } else { 2 }); ks=no_k; pubs=odd_moduli; heavy=$heavy; vt=false; prep=p_monty; |$x| {
@@ -657,6 +675,11 @@ pub fn table(thorough: bool) -> Vec<Row> {
     row!(r; "Boxed:BitOps::set_bit (secret index)"; n=[1,2,4,8]; s=1; ks=shifts; pubs=no_pub; heavy=false; vt=false; prep=p_boxed; |x| {
         let a = unsafe { H.ba.as_mut().unwrap_unchecked() }; BitOps::set_bit(a, x.k, Choice::from(1)); ob(0, a);
     });
+    bx!(r; "Boxed::adc_assign"; s=3; prep=p_boxed; |x| { let a = unsafe { H.ba.as_mut().unwrap_unchecked() }; let c = a.adc_assign(h!(bb), Limb(x.c.as_words()[0] & 1)); ob(0, a); sink(N, c.0); });
+    bx!(r; "Boxed::sbb_assign"; s=3; prep=p_boxed; |x| { let a = unsafe { H.ba.as_mut().unwrap_unchecked() }; let c = a.sbb_assign(h!(bb), Limb(0u64.wrapping_sub(x.c.as_words()[0] & 1))); ob(0, a); sink(N, c.0); });
+    bx!(r; "Boxed::add_mod_assign"; s=3; prep=p_boxed_mod_c; |x| { let a = unsafe { H.ba.as_mut().unwrap_unchecked() }; a.add_mod_assign(h!(bb), h!(bc)); ob(0, a); });
+    bx!(r; "Boxed::is_one"; s=1; prep=p_boxed; |x| { och(0, h!(ba).is_one()); });
+    bx!(r; "Boxed::conditional_wrapping_neg"; s=2; prep=p_boxed; |x| { let v = <BoxedUint as subtle::ConditionallyNegatable>::conditional_negate; let a = unsafe { H.ba.as_mut().unwrap_unchecked() }; v(a, Choice::from((x.b.as_words()[0] & 1) as u8)); ob(0, a); });
     bx!(r; "Boxed::div_rem"; s=2; prep=p_boxed_nz_b; |x| { let (q, rm) = h!(ba).div_rem(h!(bnz)); ob(0, &q); ob(N, &rm); });
     bx!(r; "Boxed::rem"; s=2; prep=p_boxed_nz_b; |x| { ob(0, &h!(ba).rem(h!(bnz))); });
     bx!(r; "Boxed::checked_div"; s=2; prep=p_boxed; |x| { ocob(0, h!(ba).checked_div(h!(bb)), N); });
